@@ -78,11 +78,16 @@ pub struct ServerConfig {
     pub chunk_pattern: Vec<usize>,
     /// per-URI picture sources (uri, embedded, cover) that take precedence over the global ones
     pub per_uri: Vec<(String, PicSource, PicSource)>,
+    /// `Some((k, code))`: after k picture chunks have been served, the next picture request that
+    /// would return data fails with this ACK code (a read error in the middle of a file)
+    pub fail_after_chunks: Option<(usize, u64)>,
+    /// the optional `type` line is sent with the first chunk (offset 0) only
+    pub mime_only_in_first_chunk: bool,
 }
 
 impl Default for ServerConfig {
     fn default() -> Self {
-        ServerConfig { password: None, password_ack_code: 3, embedded: PicSource::Empty, cover: PicSource::Empty, binary_limit: 8192, chunk_pattern: vec![], per_uri: vec![] }
+        ServerConfig { password: None, password_ack_code: 3, embedded: PicSource::Empty, cover: PicSource::Empty, binary_limit: 8192, chunk_pattern: vec![], per_uri: vec![], fail_after_chunks: None, mime_only_in_first_chunk: false }
     }
 }
 
@@ -363,6 +368,12 @@ impl SimServer {
                             ack(out, 2, index, &name, "Bad file offset");
                             return false;
                         }
+                        if let Some((after, code)) = self.cfg.fail_after_chunks {
+                            if self.chunks_served >= after {
+                                ack(out, code, index, &name, "Failed to read file");
+                                return false;
+                            }
+                        }
                         let mut k = self.cfg.binary_limit.min(data.len() - offset);
                         if !self.cfg.chunk_pattern.is_empty() && k > 0 {
                             k = k.min(self.cfg.chunk_pattern[self.chunks_served % self.cfg.chunk_pattern.len()].max(1));
@@ -370,7 +381,7 @@ impl SimServer {
                         self.chunks_served += 1;
                         out.extend_from_slice(format!("size: {}\n", data.len()).as_bytes());
                         if name == "readpicture" {
-                            if let Some(m) = mime {
+                            if let Some(m) = mime.filter(|_| offset == 0 || !self.cfg.mime_only_in_first_chunk) {
                                 out.extend_from_slice(format!("type: {m}\n").as_bytes());
                             }
                         }
